@@ -941,7 +941,7 @@ pub fn gen_package(seed: u64) -> (Vec<(String, Vec<u8>)>, Vec<String>) {
         let mut d = String::from("<definedNames>");
         let mut used: Vec<String> = vec![];
         for _ in 0..n {
-            let nm = g.rng.pick(&["MyName", "_x1", "Tax.Rate", "Über", "Print_Area", "N2"]).to_string();
+            let nm = g.rng.pick(&["MyName", "_x1", "Tax.Rate", "Über", "Print_Area", "N2", "P&L<1>", "Q\"uote'"]).to_string();
             let local = g.rng.chance(1, 3);
             let key = format!("{}{}", nm, local);
             if used.contains(&key) {
@@ -949,7 +949,25 @@ pub fn gen_package(seed: u64) -> (Vec<(String, Vec<u8>)>, Vec<String>) {
             }
             used.push(key);
             let sheet = g.rng.pick(&names).clone();
-            let text = match g.rng.below(7) {
+            // another sheet than `sheet` when there is one (for areas that span sheets)
+            let other = names.iter().find(|n| **n != sheet).cloned();
+            let text = match g.rng.below(10) {
+                7 | 8 if other.is_some() => {
+                    // a list of areas whose FIRST area is on one sheet and whose LAST area is on another one
+                    // (the library attaches an unscoped name to the sheet of its first area)
+                    g.p("name.multi-sheet");
+                    let o = other.clone().unwrap();
+                    if g.rng.chance(1, 2) {
+                        format!("{}!$A$1:$B$2,{}!$C$3", wb::quote_sheet(&sheet), wb::quote_sheet(&o))
+                    } else {
+                        format!("{}!$A$1,{}!$B$2:$B$3,{}!$C$3", wb::quote_sheet(&sheet), wb::quote_sheet(&sheet), wb::quote_sheet(&o))
+                    }
+                }
+                9 => {
+                    // an area on a sheet that does not exist (a stale name): stays in the workbook's list
+                    g.p("name.unknown-sheet");
+                    "Gone!$A$1".to_string()
+                }
                 0 | 1 => format!("{}!$A$1", wb::quote_sheet(&sheet)),
                 2 => format!("{}!$B$2:$C$5", wb::quote_sheet(&sheet)),
                 3 => {
@@ -1031,6 +1049,9 @@ pub fn gen_package(seed: u64) -> (Vec<(String, Vec<u8>)>, Vec<String>) {
 
 /// hand-written boundary packages (the `edge` stream): one small workbook around a given sheetData
 pub fn edge_package(k: u64) -> Option<Vec<(String, Vec<u8>)>> {
+    if k == 14 {
+        return Some(edge_names_package());
+    }
     let ct = format!("{}<Types xmlns=\"http://schemas.openxmlformats.org/package/2006/content-types\"><Default Extension=\"rels\" ContentType=\"application/vnd.openxmlformats-package.relationships+xml\"/><Default Extension=\"xml\" ContentType=\"application/xml\"/><Override PartName=\"/xl/workbook.xml\" ContentType=\"application/vnd.openxmlformats-officedocument.spreadsheetml.sheet.main+xml\"/><Override PartName=\"/xl/worksheets/sheet1.xml\" ContentType=\"application/vnd.openxmlformats-officedocument.spreadsheetml.worksheet+xml\"/><Override PartName=\"/xl/styles.xml\" ContentType=\"application/vnd.openxmlformats-officedocument.spreadsheetml.styles+xml\"/><Override PartName=\"/xl/sharedStrings.xml\" ContentType=\"application/vnd.openxmlformats-officedocument.spreadsheetml.sharedStrings+xml\"/></Types>", DECL);
     let rels = format!("{}<Relationships xmlns=\"{}\"><Relationship Id=\"rId1\" Type=\"{}/officeDocument\" Target=\"xl/workbook.xml\"/></Relationships>", DECL, NS_PKG_REL, NS_R);
     let wrels = format!("{}<Relationships xmlns=\"{}\"><Relationship Id=\"rId1\" Type=\"{}/worksheet\" Target=\"worksheets/sheet1.xml\"/><Relationship Id=\"rId2\" Type=\"{}/styles\" Target=\"styles.xml\"/><Relationship Id=\"rId3\" Type=\"{}/sharedStrings\" Target=\"sharedStrings.xml\"/></Relationships>", DECL, NS_PKG_REL, NS_R, NS_R, NS_R);
@@ -1114,7 +1135,36 @@ pub fn edge_package(k: u64) -> Option<Vec<(String, Vec<u8>)>> {
     Some(v)
 }
 
-pub const N_EDGE: u64 = 13;
+pub const N_EDGE: u64 = 14;
+
+/// edge 14: where defined names live after loading (the example package of `C03_names_home`, Thm/C03Names.lean
+/// `exampleNames`).  Three sheets `Data`, `S 2`, `T&U` (escaped in the attribute); names:
+///   Loc      localSheetId=2, area on Data                  -> sheet 2 (the scope, not the sheet of the area)
+///   First    no scope, areas 'S 2'!A1:B2 , Data!C3           -> sheet 1 (FIRST area; a rule by the last area says sheet 0)
+///   Amp      no scope, area 'T&U'!$A$1 (escaped text)      -> sheet 2
+///   P&L      no scope, escaped NAME, formula body          -> workbook list
+///   Txt      no scope, text constant "a,b"                 -> workbook list
+///   Gone     no scope, area on a sheet that does not exist -> workbook list
+///   Rows     localSheetId=0, whole rows (not an `is_address`: kept as text) -> sheet 0
+fn edge_names_package() -> Vec<(String, Vec<u8>)> {
+    let ct = format!("{}<Types xmlns=\"http://schemas.openxmlformats.org/package/2006/content-types\"><Default Extension=\"rels\" ContentType=\"application/vnd.openxmlformats-package.relationships+xml\"/><Default Extension=\"xml\" ContentType=\"application/xml\"/><Override PartName=\"/xl/workbook.xml\" ContentType=\"application/vnd.openxmlformats-officedocument.spreadsheetml.sheet.main+xml\"/><Override PartName=\"/xl/worksheets/sheet1.xml\" ContentType=\"application/vnd.openxmlformats-officedocument.spreadsheetml.worksheet+xml\"/><Override PartName=\"/xl/worksheets/sheet2.xml\" ContentType=\"application/vnd.openxmlformats-officedocument.spreadsheetml.worksheet+xml\"/><Override PartName=\"/xl/worksheets/sheet3.xml\" ContentType=\"application/vnd.openxmlformats-officedocument.spreadsheetml.worksheet+xml\"/><Override PartName=\"/xl/styles.xml\" ContentType=\"application/vnd.openxmlformats-officedocument.spreadsheetml.styles+xml\"/></Types>", DECL);
+    let rels = format!("{}<Relationships xmlns=\"{}\"><Relationship Id=\"rId1\" Type=\"{}/officeDocument\" Target=\"xl/workbook.xml\"/></Relationships>", DECL, NS_PKG_REL, NS_R);
+    // relative, absolute and dotted targets for the three sheets
+    let wrels = format!("{}<Relationships xmlns=\"{}\"><Relationship Id=\"rId1\" Type=\"{}/worksheet\" Target=\"worksheets/sheet1.xml\"/><Relationship Id=\"rId2\" Type=\"{}/worksheet\" Target=\"/xl/worksheets/sheet2.xml\"/><Relationship Id=\"rId3\" Type=\"{}/worksheet\" Target=\"./worksheets/../worksheets/sheet3.xml\"/><Relationship Id=\"rId4\" Type=\"{}/styles\" Target=\"styles.xml\"/></Relationships>", DECL, NS_PKG_REL, NS_R, NS_R, NS_R, NS_R);
+    let styles = format!("{}<styleSheet xmlns=\"{}\"><fonts count=\"1\"><font><sz val=\"11\"/><name val=\"Calibri\"/></font></fonts><fills count=\"1\"><fill><patternFill patternType=\"none\"/></fill></fills><borders count=\"1\"><border><left/><right/><top/><bottom/><diagonal/></border></borders><cellStyleXfs count=\"1\"><xf numFmtId=\"0\" fontId=\"0\" fillId=\"0\" borderId=\"0\"/></cellStyleXfs><cellXfs count=\"1\"><xf numFmtId=\"0\" fontId=\"0\" fillId=\"0\" borderId=\"0\" xfId=\"0\"/></cellXfs></styleSheet>", DECL, NS_MAIN);
+    let wb = format!("{}<workbook xmlns=\"{}\" xmlns:r=\"{}\"><sheets><sheet name=\"Data\" sheetId=\"1\" r:id=\"rId1\"/><sheet name=\"S 2\" sheetId=\"2\" r:id=\"rId2\"/><sheet name=\"T&amp;U\" sheetId=\"3\" r:id=\"rId3\"/></sheets><definedNames><definedName name=\"Loc\" localSheetId=\"2\">'Data'!$A$1</definedName><definedName name=\"First\">'S 2'!$A$1:$B$2,'Data'!$C$3</definedName><definedName name=\"Amp\">'T&amp;U'!$A$1</definedName><definedName name=\"P&amp;L\">SUM(Data!$A$1:$A$5)-'S 2'!$B$1</definedName><definedName name=\"Txt\">\"a,b\"</definedName><definedName name=\"Gone\">'Gone'!$A$1</definedName><definedName name=\"Rows\" localSheetId=\"0\">Data!$1:$2</definedName></definedNames></workbook>", DECL, NS_MAIN, NS_R);
+    let sheet = |v: u32, extra: &str| format!("{}<worksheet xmlns=\"{}\" xmlns:r=\"{}\"><sheetData><row r=\"1\"><c r=\"A1\"><v>{}</v></c></row></sheetData>{}</worksheet>", DECL, NS_MAIN, NS_R, v, extra);
+    vec![
+        ("[Content_Types].xml".into(), ct.into_bytes()),
+        ("_rels/.rels".into(), rels.into_bytes()),
+        ("xl/workbook.xml".into(), wb.into_bytes()),
+        ("xl/_rels/workbook.xml.rels".into(), wrels.into_bytes()),
+        ("xl/worksheets/sheet1.xml".into(), sheet(1, "<mergeCells count=\"3\"><mergeCell ref=\"A5:B6\"/><mergeCell ref=\"C5:XFD7\"/><mergeCell ref=\"A9:A1048576\"/></mergeCells>").into_bytes()),
+        ("xl/worksheets/sheet2.xml".into(), sheet(2, "").into_bytes()),
+        ("xl/worksheets/sheet3.xml".into(), sheet(3, "").into_bytes()),
+        ("xl/styles.xml".into(), styles.into_bytes()),
+    ]
+}
 
 pub fn zip_parts(parts: &[(String, Vec<u8>)], stored: bool) -> Vec<u8> {
     let mut buf: Vec<u8> = Vec::new();
@@ -1336,13 +1386,15 @@ pub fn view(book: &Spreadsheet) -> String {
         })
         .collect();
     let mut names: Vec<String> = vec![];
-    let dn = |d: &DefinedName| format!("{}:{}:{}", hex(d.get_name()), if d.has_local_sheet_id() { d.get_local_sheet_id().to_string() } else { "~".into() }, hex(&quote_qualifiers(&d.get_address())));
+    // every defined name with its HOME: the list it is found in after loading (`w` = Spreadsheet::get_defined_names(),
+    // k = get_sheet(k).get_defined_names()).  `dview_of` / `mview_of` decide what of it each comparison sees.
+    let dn = |d: &DefinedName, home: &str| format!("{}:{}:{}:{}", hex(d.get_name()), if d.has_local_sheet_id() { d.get_local_sheet_id().to_string() } else { "~".into() }, hex(&quote_qualifiers(&d.get_address())), home);
     for d in book.get_defined_names() {
-        names.push(dn(d));
+        names.push(dn(d, "w"));
     }
     for i in 0..n {
         for d in book.get_sheet(&i).unwrap().get_defined_names() {
-            names.push(dn(d));
+            names.push(dn(d, &i.to_string()));
         }
     }
     names.sort();
@@ -1486,7 +1538,7 @@ pub fn run_case(out: &mut Out, header: &str) {
         Ok(Err(e)) => format!("read-error {}", format!("{:?}", e).replace('\n', " ")),
         Err(_) => "read-panicked".into(),
     };
-    let reply = format!("errs=0;;view={}", v);
+    let reply = format!("errs=0;;view={}", dview_of(out, &v));
     out.end(&line, &reply, true);
     // the Lean MODEL of the reader above the cell level (sheetData loop with shared groups, shared strings,
     // hyperlinks, merges, sheet list, defined names) against the implementation: correspondence
@@ -1501,7 +1553,41 @@ pub fn run_case(out: &mut Out, header: &str) {
     out.end(&line, &reply, true);
 }
 
-/// the modelled components of a view: sheet list, defined names, per sheet cells / merges / links
+/// the view the independent DECODER is compared with.  Where a defined name lives: ECMA-376 18.2.5 gives a name with
+/// `localSheetId` = i the scope "sheet i" and a name without it the scope "workbook"; the standard knows no sheet that
+/// "holds" a workbook-scoped name.  So for a scoped name the home the library chose is shown (the decoder expects i), for
+/// an unscoped name `g` is shown whatever list the library put it into (that choice — the re-homing by the sheet of the
+/// first area — is the library's API convention and is compared with the reader MODEL in `c03 model`, which sees every home).
+pub fn dview_of(out: &mut Out, v: &str) -> String {
+    let Some((head, rest)) = v.split_once(" # ") else { return v.to_string() };
+    let fields: Vec<String> = head
+        .split(';')
+        .map(|f| match f.strip_prefix("names=") {
+            Some(ns) if !ns.is_empty() => {
+                let mut items: Vec<String> = ns
+                    .split('|')
+                    .map(|it| {
+                        let p: Vec<&str> = it.split(':').collect();
+                        if p.len() == 4 {
+                            out.count(if p[1] != "~" { "name.home.scoped" } else if p[3] == "w" { "name.home.global-in-workbook-list" } else { "name.home.global-rehomed-to-sheet" });
+                        }
+                        if p.len() == 4 && p[1] == "~" {
+                            format!("{}:{}:{}:g", p[0], p[1], p[2])
+                        } else {
+                            it.to_string()
+                        }
+                    })
+                    .collect();
+                items.sort();
+                format!("names={}", items.join("|"))
+            }
+            _ => f.to_string(),
+        })
+        .collect();
+    format!("{} # {}", fields.join(";"), rest)
+}
+
+/// the modelled components of a view: sheet list, defined names WITH the home of every name, per sheet cells / merges / links
 pub fn mview_of(v: &str) -> String {
     if v.starts_with("read-panicked") || v.starts_with("view-panicked") {
         return "read-panicked".into();
